@@ -115,11 +115,13 @@ PROPS = {
             "fuzz_rect_big": dict(tc="fuzzbig", src="fuzz_targets.cpp", variants=["plain"], flags=["-DFUZZ_TARGET=3", "-DFUZZ_BIG"], libs=[]),
             "fuzz_misc": dict(tc="fuzz", src="fuzz_targets.cpp", variants=["plain"], flags=["-DFUZZ_TARGET=4"], libs=[]),
             "fuzz_misc_big": dict(tc="fuzzbig", src="fuzz_targets.cpp", variants=["plain"], flags=["-DFUZZ_TARGET=4", "-DFUZZ_BIG"], libs=[]),
+            "fuzz_export": dict(tc="fuzz", src="fuzz_targets.cpp", variants=["plain"], flags=["-DFUZZ_TARGET=5"], libs=[]),
+            "fuzz_export_z": dict(tc="fuzz", src="fuzz_targets.cpp", variants=["z"], flags=["-DFUZZ_TARGET=5"], libs=[]),
         },
         parts=[
             dict(name="deg", bin="main", workers={Q: 2, T: 2}, cases={Q: 6000, T: 200000}),
             dict(name="allocfail", bin="main", workers={Q: 2, T: 3}, cases={Q: 300, T: 3000}),
-            dict(name="fuzz_bool", kind="fuzz", bin="fuzz_bool", workers={Q: 3, T: 3}, seconds={Q: 45, T: 900}),
+            dict(name="fuzz_bool", kind="fuzz", bin="fuzz_bool", workers={Q: 2, T: 2}, seconds={Q: 45, T: 900}),
             dict(name="fuzz_bool_z", kind="fuzz", bin="fuzz_bool_z", corpus="fuzz_bool", workers={Q: 1, T: 1}, seconds={Q: 45, T: 900}),
             dict(name="fuzz_bool_big", kind="fuzz", bin="fuzz_bool_big", corpus="fuzz_bool", workers={Q: 2, T: 2}, seconds={Q: 45, T: 900}),
             dict(name="fuzz_offset", kind="fuzz", bin="fuzz_offset", workers={Q: 1, T: 1}, seconds={Q: 45, T: 900}),
@@ -129,12 +131,15 @@ PROPS = {
             dict(name="fuzz_rect_big", kind="fuzz", bin="fuzz_rect_big", corpus="fuzz_rect", workers={Q: 1, T: 1}, seconds={Q: 45, T: 900}),
             dict(name="fuzz_misc", kind="fuzz", bin="fuzz_misc", workers={Q: 1, T: 1}, seconds={Q: 45, T: 900}),
             dict(name="fuzz_misc_big", kind="fuzz", bin="fuzz_misc_big", corpus="fuzz_misc", workers={Q: 1, T: 1}, seconds={Q: 45, T: 900}),
+            dict(name="fuzz_export", kind="fuzz", bin="fuzz_export", workers={Q: 1, T: 1}, seconds={Q: 45, T: 900}),
+            dict(name="fuzz_export_z", kind="fuzz", bin="fuzz_export_z", corpus="fuzz_export", workers={Q: 1, T: 1}, seconds={Q: 45, T: 900}),
         ],
         rule=("(a) coverage-guided libFuzzer campaigns (ASan+UBSan+LSan, libstdc++ assertions and vector annotations) over "
               "structure-aware decoders for boolean clipping (Clipper64/ClipperD, paths/polytree, open paths, options, Clear, "
               "ReuseableDataContainer64; plain, USINGZ and a build for magnitudes up to 2^62 without the overflow checks), "
-              "offsetting (groups, all join/end types, delta callback, polytree, reuse), rectangle clipping and "
-              "Minkowski/utilities, with the structural/Execute-success/NoClip oracles inside the targets; evaluations = "
+              "offsetting (groups, all join/end types, delta callback, polytree, reuse), rectangle clipping, "
+              "Minkowski/utilities and the 14 C export functions (exact-length input blocks, returned arrays walked to their "
+              "stated length and released with DisposeArray*; plain and USINGZ), with the structural/Execute-success/NoClip oracles inside the targets; evaluations = "
               "executions, non-trivial = a corpus unit (coverage-distinct input) that produced a non-empty result; (b) "
               "rapidcheck over degenerate structured inputs through 12 operation families; (c) allocation-failure "
               "enumeration: for each generated small case the k-th allocation inside the operation throws std::bad_alloc "
